@@ -930,7 +930,32 @@ def rule_hello_checks(ctx):
                   "settings.versions": [((3, 3), (3, 2)), ((3, 3),)], "clientHello.cipher_suites": [(47,)]},
              abort=lambda e: not set(e["ver_ext.versions"]) & set(e["settings.versions"])),
     ]
+    rows.append(dict(what="SNI host name is a valid DNS name",
+                     dom={"sniExt": [True], "sniExt.extData": [b"x"], "sniExt.serverNames": [("n",)],
+                          "sniExt.hostNames": [(b"a",)], "is_valid_hostname(name)": [True, False]},
+                     abort=lambda e: not e["is_valid_hostname(name)"]))
     spec_rows(ctx, R, TLSCONN + "_serverGetClientHello", rows)
+    # the same kind of rows for what the TLS 1.3 client requires of the server's first flight
+    spec_rows(ctx, R, TLSCONN + "_clientTLS13Handshake", [
+        dict(what="ServerHello selects a key share or a PSK",
+             dom={"sr_kex": [None, True], "sr_psk": [None, True], "sr_kex.server_share": [True]},
+             abort=lambda e: not e["sr_kex"] and not e["sr_psk"],
+             msg="a TLS 1.3 ServerHello with neither key_share nor pre_shared_key must be refused (the keys would "
+                 "be derived from public values only)"),
+        dict(what="CertificateRequest lists signature algorithms when the client is going to sign",
+             dom={"certificate_request": [True], "clientCertChain": [True], "privateKey": [True],
+                  "valid_sig_algs": [None, (), ((8, 4),)], "signature_scheme is None": [False]},
+             abort=lambda e: not e["valid_sig_algs"],
+             msg="a CertificateRequest without signature algorithms must be answered with an alert (the selection "
+                 "helper asserts on a missing list)"),
+    ])
+    spec_rows(ctx, R, TLSREC + "_handle_pha", [
+        dict(what="post-handshake CertificateRequest lists signature algorithms when the client is going to sign",
+             dom={"cert.x509List": [True], "p_key": [True], "valid_sig_algs": [None, (), ((8, 4),)],
+                  "sig_scheme is None": [False]},
+             abort=lambda e: not e["valid_sig_algs"],
+             msg="a post-handshake CertificateRequest without signature algorithms must be answered with an alert"),
+    ])
 
 
 RULES.insert(8, ("C08.HELLO", "quick", rule_hello_checks))
